@@ -187,17 +187,17 @@ def _slice_bounds(sub: ast.Subscript, leaf) -> Optional[Tuple[Poly, Optional[Pol
 def reader_layout(ctx: Ctx, f: Func, helper: Optional[Func]):
     fn = f.node
     line_param = [p for p in f.params if p not in ("cls", "self")][0]
-    width_vars = set()
+    width_vars = {}
     for st in walk_no_nested(fn):
         if isinstance(st, ast.Assign) and isinstance(st.targets[0], ast.Name) \
                 and isinstance(st.value, ast.Subscript) and isinstance(st.value.value, ast.Subscript) \
                 and isinstance(st.value.value.slice, ast.Constant) and st.value.value.slice.value == "position" \
-                and const_int(st.value.slice) == 0:
-            width_vars.add(st.targets[0].id)
+                and const_int(st.value.slice) in (0, 1):
+            width_vars[st.targets[0].id] = F if const_int(st.value.slice) == 0 else D
 
     def leaf(e):
         if isinstance(e, ast.Name) and e.id in width_vars:
-            return F
+            return width_vars[e.id]
         if isinstance(e, ast.Subscript) and isinstance(e.value, ast.Subscript) \
                 and isinstance(e.value.slice, ast.Constant) and e.value.slice.value == "position":
             return {0: F, 1: D}.get(const_int(e.slice))
@@ -277,7 +277,8 @@ def reader_layout(ctx: Ctx, f: Func, helper: Optional[Func]):
         if isinstance(st, ast.Assign) and isinstance(st.targets[0], ast.Name) \
                 and "expect" in st.targets[0].id.lower():
             explen = poly_of(st.value, leaf)
-            explen_node = st
+            if explen is None:
+                explen = "non-polynomial: " + norm(st.value)
     # is the length test a raising guard that dominates the slices?
     return base_fields, vel_fields, explen, leaf
 
@@ -295,6 +296,18 @@ def r13_1(ctx: Ctx):
         return
     novel, withvel, keysym, extra = wl
     base_fields, vel_fields, explen, leaf = reader_layout(ctx, r, h)
+    if base_fields is not None and any(b is None for b in base_fields):
+        # a slice of the line whose bounds are arithmetic in the field width but not a polynomial (e.g. a division)
+        # cannot be a column boundary
+        bad_slices = [sub for sub in ast.walk(r.node) if isinstance(sub, ast.Subscript) and isinstance(sub.slice, ast.Slice)
+                      and isinstance(sub.value, ast.Name) and sub.value.id == [p_ for p_ in r.params if p_ not in ("cls", "self")][0]
+                      and _slice_bounds(sub, leaf) is None
+                      and all(isinstance(x, (ast.Name, ast.Constant, ast.BinOp, ast.operator, ast.Load, ast.Slice, ast.Subscript, ast.expr_context))
+                              for b_ in (sub.slice.lower, sub.slice.upper) if b_ is not None for x in ast.walk(b_))]
+        if bad_slices:
+            ctx.ob("R13.1", r, bad_slices[0], False, "reader slice bounds are integer polynomials in the field width -- "
+                   "`%s` is not" % norm(bad_slices[0]), node=bad_slices[0])
+            return
     if base_fields is None or any(b is None for b in base_fields):
         ctx.ob("R13.1", r, "reader slice table", True, "reader layout not in the recognised tuple-of-slices "
                "shape; column agreement not decided on this tree", undecided=True)
@@ -341,11 +354,31 @@ def r13_1(ctx: Ctx):
         ctx.ob("R13.1", r, "velocity fields", False,
                "writer emits velocity columns but the reader's velocity slices were not found")
     # velocity fields appended exactly under the velocities condition
-    for s, guards in extra:
-        ctx.ob("R13.1", w, "velocity columns appended under %s" % guards, bool(guards),
-               "velocity columns are emitted only for records that carry velocities", node=w.node)
+    flag_defs = {}
+    pmw = parents_map(w.node)
+    for st in walk_no_nested(w.node):
+        if isinstance(st, ast.Assign) and isinstance(st.targets[0], ast.Name) and isinstance(st.value, ast.Constant) \
+                and isinstance(st.value.value, bool):
+            g_ = [(norm(t), pol) for t, pol in guards_of(st, pmw)]
+            flag_defs.setdefault(st.targets[0].id, []).append((st.value.value, g_))
+    inp_w = [p_ for p_ in w.params if p_ not in ("cls", "self")][0]
+    for s_, guards in extra:
+        flag = [g_ for g_ in guards if not g_.endswith(" is false")]
+        okg = len(guards) == 1 and len(flag) == 1 and flag[0] in flag_defs
+        if okg:
+            # the flag is True exactly for records of 10 fields (7 + 3 velocities) and False for 7
+            want = {True: [("len(%s) == 10" % inp_w, True)], False: [("len(%s) == 10" % inp_w, False), ("len(%s) == 7" % inp_w, True)]}
+            for val, g_ in flag_defs[flag[0]]:
+                if sorted(g_) != sorted(want[val]):
+                    okg = False
+        ctx.ob("R13.1", w, "velocity columns appended under %s; flag definitions %s" % (guards, flag_defs.get(flag[0] if flag else "", "?")),
+               okg, "velocity columns are emitted exactly for records of ten fields (the flag is True under len == 10, "
+               "False under len == 7, anything else is refused)", node=w.node)
     # expected length for both settings
-    if explen is not None:
+    if isinstance(explen, str):
+        ctx.ob("R13.1", r, "expected_length " + explen, False, "the expected line length is an integer polynomial in the "
+               "field width equal to the writer's total", node=r.node)
+    elif explen is not None:
         for v, tot, lab in ((0, tot_nv, "without velocities"), (1, tot_v, "with velocities")):
             got = explen.subst({"V": Poly.const(v)})
             n += 1
@@ -386,6 +419,24 @@ def r13_1(ctx: Ctx):
                            decimals_poly=repr(p))
     if dec_ok is None:
         ctx.ob("R13.1", d, "inferred position format", True, "shape not recognised", undecided=True)
+    defs_d = {s_.targets[0].id: s_ for s_ in walk_no_nested(d.node) if isinstance(s_, ast.Assign) and isinstance(s_.targets[0], ast.Name)}
+    pmd = parents_map(d.node)
+    vel_ok = True
+    seen_vals = {}
+    for s_ in walk_no_nested(d.node):
+        if isinstance(s_, ast.Assign) and norm(s_.targets[0]) == "velocities" and isinstance(s_.value, ast.Constant):
+            g_ = [(norm(t), pol) for t, pol in guards_of(s_, pmd)]
+            seen_vals[s_.value.value] = g_
+    vel_ok = sorted(seen_vals.get(False, [])) == [("ndots == 3", True)] and \
+        sorted(seen_vals.get(True, [])) == [("ndots == 3", False), ("ndots == 6", True)]
+    ctx.ob("R13.1", d, "velocities flag from the number of decimal points: %s" % seen_vals, vel_ok,
+           "three decimal points after the header mean positions only, six mean positions and velocities, anything else is refused",
+           node=d.node)
+    fig = defs_d.get("nfigures")
+    okf = fig is not None and norm(fig.value).replace(" ", "") in ("(size-cls.COORD_START)//ndots",)
+    ctx.ob("R13.1", d, fig if fig is not None else "field width", okf,
+           "the field width is (line length - header width) // number of float fields", node=fig if fig is not None else d.node)
+    n += 2
     cs = d.cls.consts.get("COORD_START") if d.cls else None
     hdr = Poly.const(0)
     for a, b, fld in w_nv:
@@ -528,6 +579,10 @@ def r13_2(ctx: Ctx):
             if not feasible:
                 continue
     ctx.floor("R13.2", n, 2, "(initial state, path) pairs reaching the first formatted write")
+    vst = [s_ for s_ in walk_no_nested(setup.node) if isinstance(s_, ast.Assign) and "velocities" in _fmt_key_store(s_, rec)]
+    p_rec = [p_ for p_ in setup.params if p_ != "self"][0]
+    ctx.ob("R13.2", setup, vst[0] if vst else "velocities key", bool(vst) and norm(vst[0].value).replace(" ", "") == "len(%s)==10" % p_rec,
+           "the file carries velocities exactly when its first record has ten fields", node=vst[0] if vst else setup.node)
     # writeline routes the first record through the set-up (guard on the header position)
     ok = any(isinstance(c, ast.Call) and call_name(c) == setup.name for c in ast.walk(wl.node))
     ctx.ob("R13.2", wl, "first record goes through %s" % setup.name, ok,
@@ -682,6 +737,13 @@ def r13_3(ctx: Ctx):
                    node=f.node)
             continue
 
+        others = [norm(e_) for e_ in ast.walk(expr) if isinstance(e_, ast.Subscript) and isinstance(e_.value, ast.Name)
+                  and e_.value.id in (inp, seq) and const_int(e_.slice) not in (None, slot)]
+        if others:
+            ctx.ob("R13.3", f, site, False, "slot %d is computed from the same field of the input record -- it reads %s"
+                   % (slot, others), node=site)
+            continue
+
         def is_x(e, slot=slot):
             return isinstance(e, ast.Subscript) and isinstance(e.value, ast.Name) \
                 and e.value.id in (inp, seq) and const_int(e.slice) == slot
@@ -770,6 +832,26 @@ def r13_4(ctx: Ctx):
     re_, rw = role(ex, te[0]), role(du, td[0])
     ctx.ob("R13.4", ex, "reader role=%s writer role=%s" % (re_, rw), {re_, rw} == {"scatter", "gather"},
            "one side scatters by the table and the other gathers by it (inverse permutations)", node=ex.node)
+    # nine numbers whenever any off-diagonal component is non-zero
+    ifs = [n_ for n_ in walk_no_nested(du.node) if isinstance(n_, ast.If)]
+    okt, shown = False, ""
+    for n_ in ifs:
+        t = n_.test
+        shown = norm(t)
+        inner = None
+        if isinstance(t, ast.Call) and call_name(t) in ("any", "count_nonzero") and (t.args or isinstance(t.func, ast.Attribute)):
+            inner = t.args[0] if t.args else t.func.value
+        if inner is not None:
+            if isinstance(inner, ast.Compare) and isinstance(inner.ops[0], ast.NotEq) and const_int(inner.comparators[0]) == 0:
+                inner = inner.left
+            whole = isinstance(inner, ast.Subscript) and isinstance(inner.slice, ast.Slice) and const_int(inner.slice.lower) == 3 \
+                and inner.slice.upper is None and inner.slice.step is None
+            body9 = any(isinstance(x, ast.Assign) and const_int(x.value) == 9 for x in n_.body)
+            else3 = any(isinstance(x, ast.Assign) and const_int(x.value) == 3 for x in n_.orelse)
+            okt = whole and body9 and else3
+    ctx.ob("R13.4", du, "triclinic test `%s`" % shown, okt,
+           "all nine components are written as soon as any of the six off-diagonal ones is non-zero (of either sign), "
+           "three otherwise", node=ifs[0] if ifs else du.node)
     # number of components written: 3 or 9
     lims = sorted({const_int(st.value) for st in walk_no_nested(du.node)
                    if isinstance(st, ast.Assign) and const_int(st.value) is not None})
@@ -779,6 +861,12 @@ def r13_4(ctx: Ctx):
 # ---------------------------------------------------------------------------
 # R13.5 count back-fill geometry
 # ---------------------------------------------------------------------------
+def stmts_sorted_local(fn):
+    out = [s_ for s_ in walk_no_nested(fn) if isinstance(s_, ast.stmt) and s_ is not fn]
+    out.sort(key=lambda s_: (s_.lineno, s_.col_offset))
+    return out
+
+
 def r13_5(ctx: Ctx):
     setup = ctx.func("GroFile._setup_write_file")
     closing = ctx.func("GroFile._write_closing_info")
@@ -826,9 +914,39 @@ def r13_5(ctx: Ctx):
                 and call_name(c.args[0]) == "format" and isinstance(c.args[0].func, ast.Attribute) \
                 and isinstance(c.args[0].func.value, ast.Constant):
             fill = c.args[0]
+    if plen is not None and (seek is None or fill is None):
+        ctx.ob("R13.5", closing, "count back-fill", False,
+               "a blank count placeholder is written at set-up, so closing must seek back to it and write the count -- %s"
+               % ("the seek back is missing" if seek is None else "the count is never written"), node=closing.node)
+        return
     if seek is None or fill is None or plen is None:
         ctx.ob("R13.5", closing, "back-fill", True, "back-fill seek/write not recognised", undecided=True)
         return
+    pmc = parents_map(closing.node)
+    gfill = [(norm(t), pol) for t, pol in guards_of(fill, pmc)]
+    ctx.ob("R13.5", closing, "back-fill guarded by %s" % gfill, gfill == [("self._natoms is None", True)],
+           "the count is back-filled exactly when it was not declared up front", node=fill)
+    # declared count: a mismatch with the number of records written is an error
+    mism = [n_ for n_ in walk_no_nested(closing.node) if isinstance(n_, ast.If) and norm(n_.test).replace(" ", "") in
+            ("self._natoms!=self._current_atom", "self._current_atom!=self._natoms")
+            and any(isinstance(x, ast.Raise) for x in n_.body)]
+    ctx.ob("R13.5", closing, mism[0] if mism else "declared-count check", bool(mism),
+           "a declared atom count that differs from the number of records written is refused on close", node=mism[0] if mism else closing.node)
+    # the box line goes after the last record: seek_atom(natoms) between the back-fill and the box write
+    flat_c = stmts_sorted_local(closing.node)
+    box_w = [s_ for s_ in flat_c if isinstance(s_, ast.Expr) and any(call_name(c) == "dump_lattice_gro" for c in ast.walk(s_) if isinstance(c, ast.Call))]
+    seek_end = [s_ for s_ in flat_c if isinstance(s_, ast.Expr) and isinstance(s_.value, ast.Call) and call_name(s_.value) == "seek_atom"
+                and norm(s_.value.args[0]) in ("self._natoms", "self.natoms")]
+    oks = bool(box_w) and bool(seek_end) and seek_end[-1] in closing.node.body and box_w[-1] in closing.node.body \
+        and closing.node.body.index(seek_end[-1]) < closing.node.body.index(box_w[-1]) and seek_end[-1].lineno > fill.lineno
+    ctx.ob("R13.5", closing, seek_end[-1] if seek_end else "seek to the end of the records", oks,
+           "after the count is back-filled the writer returns to the end of the atom records before writing the box line",
+           node=seek_end[-1] if seek_end else closing.node)
+    # record size measured over the first record
+    bs = [s_ for s_ in walk_no_nested(setup.node) if isinstance(s_, ast.Assign) and attr_chain(s_.targets[0]) == "self._atomline_bytesize"]
+    okb = bool(bs) and norm(bs[0].value).replace(" ", "") == "self._file.tell()-self._init_position"
+    ctx.ob("R13.5", setup, bs[0] if bs else "record size", okb,
+           "the record size is the distance covered by writing the first record", node=bs[0] if bs else setup.node)
     INIT = Poly.sym("INIT")
 
     def leaf2(e):
